@@ -116,6 +116,14 @@ fn fresh_shared_future_is_not_terminated() {
     assert!(ssem.permits() == p0, "[C05] creating a future takes no permits");
 }
 
+macro_rules! inst_t {
+    ($name:ident, $check:ident ( $($arg:expr),* )) => {
+        #[kani::proof]
+        fn $name() {
+            $check($($arg),*);
+        }
+    };
+}
 macro_rules! inst {
     ($name:ident, $check:ident ( $($arg:expr),* )) => {
         #[kani::proof]
@@ -126,80 +134,80 @@ macro_rules! inst {
 }
 inst!(shared_poll_fair_s00_q, check_shared_poll(true, [0, 0], &[]));
 inst!(shared_poll_fair_s01_q1, check_shared_poll(true, [0, 1], &[1]));
-inst!(shared_poll_fair_s02_q1, check_shared_poll(true, [0, 2], &[1]));
-inst!(shared_poll_fair_s03_q, check_shared_poll(true, [0, 3], &[]));
+inst_t!(shared_poll_fair_s02_q1, check_shared_poll(true, [0, 2], &[1]));
+inst_t!(shared_poll_fair_s03_q, check_shared_poll(true, [0, 3], &[]));
 inst!(shared_poll_fair_s10_q0, check_shared_poll(true, [1, 0], &[0]));
 inst!(shared_poll_fair_s11_q01, check_shared_poll(true, [1, 1], &[0, 1]));
 inst!(shared_poll_fair_s11_q10, check_shared_poll(true, [1, 1], &[1, 0]));
-inst!(shared_poll_fair_s12_q01, check_shared_poll(true, [1, 2], &[0, 1]));
-inst!(shared_poll_fair_s13_q0, check_shared_poll(true, [1, 3], &[0]));
+inst_t!(shared_poll_fair_s12_q01, check_shared_poll(true, [1, 2], &[0, 1]));
+inst_t!(shared_poll_fair_s13_q0, check_shared_poll(true, [1, 3], &[0]));
 inst!(shared_poll_fair_s20_q0, check_shared_poll(true, [2, 0], &[0]));
 inst!(shared_poll_fair_s21_q10, check_shared_poll(true, [2, 1], &[1, 0]));
-inst!(shared_poll_fair_s23_q0, check_shared_poll(true, [2, 3], &[0]));
+inst_t!(shared_poll_fair_s23_q0, check_shared_poll(true, [2, 3], &[0]));
 inst!(shared_poll_unfair_s00_q, check_shared_poll(false, [0, 0], &[]));
 inst!(shared_poll_unfair_s01_q1, check_shared_poll(false, [0, 1], &[1]));
-inst!(shared_poll_unfair_s02_q, check_shared_poll(false, [0, 2], &[]));
-inst!(shared_poll_unfair_s03_q, check_shared_poll(false, [0, 3], &[]));
+inst_t!(shared_poll_unfair_s02_q, check_shared_poll(false, [0, 2], &[]));
+inst_t!(shared_poll_unfair_s03_q, check_shared_poll(false, [0, 3], &[]));
 inst!(shared_poll_unfair_s10_q0, check_shared_poll(false, [1, 0], &[0]));
 inst!(shared_poll_unfair_s11_q01, check_shared_poll(false, [1, 1], &[0, 1]));
 inst!(shared_poll_unfair_s11_q10, check_shared_poll(false, [1, 1], &[1, 0]));
-inst!(shared_poll_unfair_s12_q0, check_shared_poll(false, [1, 2], &[0]));
-inst!(shared_poll_unfair_s13_q0, check_shared_poll(false, [1, 3], &[0]));
+inst_t!(shared_poll_unfair_s12_q0, check_shared_poll(false, [1, 2], &[0]));
+inst_t!(shared_poll_unfair_s13_q0, check_shared_poll(false, [1, 3], &[0]));
 inst!(shared_poll_unfair_s20_q, check_shared_poll(false, [2, 0], &[]));
 inst!(shared_poll_unfair_s21_q1, check_shared_poll(false, [2, 1], &[1]));
-inst!(shared_poll_unfair_s22_q, check_shared_poll(false, [2, 2], &[]));
-inst!(shared_poll_unfair_s23_q, check_shared_poll(false, [2, 3], &[]));
+inst_t!(shared_poll_unfair_s22_q, check_shared_poll(false, [2, 2], &[]));
+inst_t!(shared_poll_unfair_s23_q, check_shared_poll(false, [2, 3], &[]));
 inst!(shared_drop_fair_s00_q, check_shared_drop_future(true, [0, 0], &[]));
 inst!(shared_drop_fair_s01_q1, check_shared_drop_future(true, [0, 1], &[1]));
-inst!(shared_drop_fair_s02_q1, check_shared_drop_future(true, [0, 2], &[1]));
-inst!(shared_drop_fair_s03_q, check_shared_drop_future(true, [0, 3], &[]));
+inst_t!(shared_drop_fair_s02_q1, check_shared_drop_future(true, [0, 2], &[1]));
+inst_t!(shared_drop_fair_s03_q, check_shared_drop_future(true, [0, 3], &[]));
 inst!(shared_drop_fair_s10_q0, check_shared_drop_future(true, [1, 0], &[0]));
 inst!(shared_drop_fair_s11_q01, check_shared_drop_future(true, [1, 1], &[0, 1]));
 inst!(shared_drop_fair_s11_q10, check_shared_drop_future(true, [1, 1], &[1, 0]));
-inst!(shared_drop_fair_s12_q01, check_shared_drop_future(true, [1, 2], &[0, 1]));
-inst!(shared_drop_fair_s13_q0, check_shared_drop_future(true, [1, 3], &[0]));
+inst_t!(shared_drop_fair_s12_q01, check_shared_drop_future(true, [1, 2], &[0, 1]));
+inst_t!(shared_drop_fair_s13_q0, check_shared_drop_future(true, [1, 3], &[0]));
 inst!(shared_drop_fair_s20_q0, check_shared_drop_future(true, [2, 0], &[0]));
 inst!(shared_drop_fair_s21_q10, check_shared_drop_future(true, [2, 1], &[1, 0]));
-inst!(shared_drop_fair_s23_q0, check_shared_drop_future(true, [2, 3], &[0]));
+inst_t!(shared_drop_fair_s23_q0, check_shared_drop_future(true, [2, 3], &[0]));
 inst!(shared_drop_fair_s30_q, check_shared_drop_future(true, [3, 0], &[]));
 inst!(shared_drop_fair_s31_q1, check_shared_drop_future(true, [3, 1], &[1]));
-inst!(shared_drop_fair_s32_q1, check_shared_drop_future(true, [3, 2], &[1]));
-inst!(shared_drop_fair_s33_q, check_shared_drop_future(true, [3, 3], &[]));
+inst_t!(shared_drop_fair_s32_q1, check_shared_drop_future(true, [3, 2], &[1]));
+inst_t!(shared_drop_fair_s33_q, check_shared_drop_future(true, [3, 3], &[]));
 inst!(shared_drop_unfair_s00_q, check_shared_drop_future(false, [0, 0], &[]));
 inst!(shared_drop_unfair_s01_q1, check_shared_drop_future(false, [0, 1], &[1]));
-inst!(shared_drop_unfair_s02_q, check_shared_drop_future(false, [0, 2], &[]));
-inst!(shared_drop_unfair_s03_q, check_shared_drop_future(false, [0, 3], &[]));
+inst_t!(shared_drop_unfair_s02_q, check_shared_drop_future(false, [0, 2], &[]));
+inst_t!(shared_drop_unfair_s03_q, check_shared_drop_future(false, [0, 3], &[]));
 inst!(shared_drop_unfair_s10_q0, check_shared_drop_future(false, [1, 0], &[0]));
 inst!(shared_drop_unfair_s11_q01, check_shared_drop_future(false, [1, 1], &[0, 1]));
 inst!(shared_drop_unfair_s11_q10, check_shared_drop_future(false, [1, 1], &[1, 0]));
-inst!(shared_drop_unfair_s12_q0, check_shared_drop_future(false, [1, 2], &[0]));
-inst!(shared_drop_unfair_s13_q0, check_shared_drop_future(false, [1, 3], &[0]));
+inst_t!(shared_drop_unfair_s12_q0, check_shared_drop_future(false, [1, 2], &[0]));
+inst_t!(shared_drop_unfair_s13_q0, check_shared_drop_future(false, [1, 3], &[0]));
 inst!(shared_drop_unfair_s20_q, check_shared_drop_future(false, [2, 0], &[]));
 inst!(shared_drop_unfair_s21_q1, check_shared_drop_future(false, [2, 1], &[1]));
-inst!(shared_drop_unfair_s22_q, check_shared_drop_future(false, [2, 2], &[]));
-inst!(shared_drop_unfair_s23_q, check_shared_drop_future(false, [2, 3], &[]));
+inst_t!(shared_drop_unfair_s22_q, check_shared_drop_future(false, [2, 2], &[]));
+inst_t!(shared_drop_unfair_s23_q, check_shared_drop_future(false, [2, 3], &[]));
 inst!(shared_drop_unfair_s30_q, check_shared_drop_future(false, [3, 0], &[]));
 inst!(shared_drop_unfair_s31_q1, check_shared_drop_future(false, [3, 1], &[1]));
-inst!(shared_drop_unfair_s32_q, check_shared_drop_future(false, [3, 2], &[]));
-inst!(shared_drop_unfair_s33_q, check_shared_drop_future(false, [3, 3], &[]));
+inst_t!(shared_drop_unfair_s32_q, check_shared_drop_future(false, [3, 2], &[]));
+inst_t!(shared_drop_unfair_s33_q, check_shared_drop_future(false, [3, 3], &[]));
 inst!(shared_releaser_fair_s00_q, check_shared_releaser(true, [0, 0], &[]));
 inst!(shared_releaser_fair_s01_q1, check_shared_releaser(true, [0, 1], &[1]));
-inst!(shared_releaser_fair_s02_q1, check_shared_releaser(true, [0, 2], &[1]));
-inst!(shared_releaser_fair_s03_q, check_shared_releaser(true, [0, 3], &[]));
+inst_t!(shared_releaser_fair_s02_q1, check_shared_releaser(true, [0, 2], &[1]));
+inst_t!(shared_releaser_fair_s03_q, check_shared_releaser(true, [0, 3], &[]));
 inst!(shared_releaser_fair_s11_q01, check_shared_releaser(true, [1, 1], &[0, 1]));
 inst!(shared_releaser_fair_s11_q10, check_shared_releaser(true, [1, 1], &[1, 0]));
-inst!(shared_releaser_fair_s12_q01, check_shared_releaser(true, [1, 2], &[0, 1]));
-inst!(shared_releaser_fair_s13_q0, check_shared_releaser(true, [1, 3], &[0]));
-inst!(shared_releaser_fair_s23_q0, check_shared_releaser(true, [2, 3], &[0]));
-inst!(shared_releaser_fair_s33_q, check_shared_releaser(true, [3, 3], &[]));
+inst_t!(shared_releaser_fair_s12_q01, check_shared_releaser(true, [1, 2], &[0, 1]));
+inst_t!(shared_releaser_fair_s13_q0, check_shared_releaser(true, [1, 3], &[0]));
+inst_t!(shared_releaser_fair_s23_q0, check_shared_releaser(true, [2, 3], &[0]));
+inst_t!(shared_releaser_fair_s33_q, check_shared_releaser(true, [3, 3], &[]));
 inst!(shared_releaser_unfair_s00_q, check_shared_releaser(false, [0, 0], &[]));
 inst!(shared_releaser_unfair_s01_q1, check_shared_releaser(false, [0, 1], &[1]));
-inst!(shared_releaser_unfair_s02_q, check_shared_releaser(false, [0, 2], &[]));
-inst!(shared_releaser_unfair_s03_q, check_shared_releaser(false, [0, 3], &[]));
+inst_t!(shared_releaser_unfair_s02_q, check_shared_releaser(false, [0, 2], &[]));
+inst_t!(shared_releaser_unfair_s03_q, check_shared_releaser(false, [0, 3], &[]));
 inst!(shared_releaser_unfair_s11_q01, check_shared_releaser(false, [1, 1], &[0, 1]));
 inst!(shared_releaser_unfair_s11_q10, check_shared_releaser(false, [1, 1], &[1, 0]));
-inst!(shared_releaser_unfair_s12_q0, check_shared_releaser(false, [1, 2], &[0]));
-inst!(shared_releaser_unfair_s13_q0, check_shared_releaser(false, [1, 3], &[0]));
-inst!(shared_releaser_unfair_s22_q, check_shared_releaser(false, [2, 2], &[]));
-inst!(shared_releaser_unfair_s23_q, check_shared_releaser(false, [2, 3], &[]));
-inst!(shared_releaser_unfair_s33_q, check_shared_releaser(false, [3, 3], &[]));
+inst_t!(shared_releaser_unfair_s12_q0, check_shared_releaser(false, [1, 2], &[0]));
+inst_t!(shared_releaser_unfair_s13_q0, check_shared_releaser(false, [1, 3], &[0]));
+inst_t!(shared_releaser_unfair_s22_q, check_shared_releaser(false, [2, 2], &[]));
+inst_t!(shared_releaser_unfair_s23_q, check_shared_releaser(false, [2, 3], &[]));
+inst_t!(shared_releaser_unfair_s33_q, check_shared_releaser(false, [3, 3], &[]));
